@@ -28,11 +28,23 @@ func associatedWithTypedObject(currEpoch uint64, metaCursor *bbolt.Cursor, idObj
 
 // checks if specified object is locked in the specified container.
 func objectLocked(currEpoch uint64, metaCursor *bbolt.Cursor, idObj oid.ID) bool {
-	locked, lockID := associatedWithTypedObject(currEpoch, metaCursor, idObj, object.TypeLock)
-	if !locked {
-		return false
+	// Check every associated LOCK: a removed or expired one must not hide
+	// another lock that still protects the object.
+	for associateID := range iterAttrVal(metaCursor, object.AttributeAssociatedObject, idObj[:]) {
+		var cur = metaCursor.Bucket().Cursor()
+
+		if !isObjectType(cur, associateID, object.TypeLock) {
+			continue
+		}
+		if currEpoch > 0 && isExpired(cur, associateID, currEpoch) {
+			continue
+		}
+		if inGarbage(cur, associateID) == statusAvailable {
+			return true
+		}
 	}
-	return inGarbage(metaCursor, lockID) == statusAvailable
+
+	return false
 }
 
 // IsLocked checks is the provided object is locked by any `LOCK`. Not found
